@@ -103,6 +103,19 @@ func (e *Engine) registerIntrinsics2() {
 		}
 	}
 
+	// time.NewTicker / NewTimer: the scenarios are over long before any period; the channel
+	// never fires
+	tickerOf := func(c *PathCtx, fr *frame) Value {
+		pt := fr.fn.Signature.Results().At(0).Type().Underlying().(*types.Pointer)
+		p := new(Value)
+		*p = zero(pt.Elem())
+		return p
+	}
+	in["time.NewTicker"] = func(c *PathCtx, fr *frame, args []Value) Value { return tickerOf(c, fr) }
+	in["time.NewTimer"] = func(c *PathCtx, fr *frame, args []Value) Value { return tickerOf(c, fr) }
+	in["(*time.Ticker).Stop"] = func(c *PathCtx, fr *frame, args []Value) Value { return nil }
+	in["(*time.Ticker).Reset"] = func(c *PathCtx, fr *frame, args []Value) Value { return nil }
+	in["(*time.Timer).Stop"] = func(c *PathCtx, fr *frame, args []Value) Value { return tFalse }
 	in["(time.Duration).Milliseconds"] = func(c *PathCtx, fr *frame, args []Value) Value {
 		return tBV2("bvsdiv", args[0].(*Term), mkBV(64, 1000000))
 	}
